@@ -7,6 +7,7 @@ import (
 	"fmt"
 	"go/ast"
 	"go/token"
+	"go/types"
 	"strings"
 )
 
@@ -125,32 +126,76 @@ func (c *Ctx) peephole() (*peephole, error) {
 
 func (c *Ctx) extractPeephole(fd *ast.FuncDecl, sw *ast.SwitchStmt) (*peephole, error) {
 	p := &peephole{Fn: fd}
-	// find enclosing loop and the names of the input slice and the index
 	for n := c.Parent(sw); n != nil; n = c.Parent(n) {
 		if f, ok := n.(*ast.ForStmt); ok {
 			p.Loop = f
 			break
 		}
 	}
+	// binding of in[n+k]: either a free instruction Ik, or (once the window is known) an
+	// instruction whose Code is the window's opcode, so helper predicates/functions fold
+	bound := map[int64]*T{}
+	insTerm := func(k int64) *T {
+		if t, ok := bound[k]; ok {
+			return t
+		}
+		return tVar(nil, fmt.Sprintf("I%d", k))
+	}
+	withCode := func(k int64, code string) *T {
+		lit := &T{Op: "lit", Name: "instruction"}
+		v := tVar(nil, fmt.Sprintf("I%d", k))
+		for _, f := range []string{"A", "B", "C", "Pos"} {
+			lit.Args = append(lit.Args, &T{Op: "kv", Name: f, Args: []*T{tField(v, f)}})
+		}
+		cc := tConst(code)
+		if o := c.Types.Scope().Lookup(code); o != nil {
+			cc.Obj = o
+		}
+		lit.Args = append(lit.Args, &T{Op: "kv", Name: "Code", Args: []*T{cc}})
+		return lit
+	}
 	in := newInterp(c)
+	in.Inline = func(o types.Object) bool {
+		fn, ok := o.(*types.Func)
+		return ok && fn.Pkg() != nil && fn.Pkg().Path() == modPath && fn.Name() != "joinParams" && fn.Name() != "splitParams"
+	}
 	in.H.Post = func(in *Interp, st *State, e ast.Expr, t *T) *T {
 		if t.Op == "index" && t.Args[0].Op == "var" && t.Args[0].Name == "in" {
 			l := linOf(t.Args[1])
 			if len(l.Coef) == 1 && l.Coef["n"] == 1 {
-				return tVar(nil, fmt.Sprintf("I%d", l.K))
+				return insTerm(l.K)
 			}
 		}
 		return nil
 	}
 	st := newState()
 	in.bindParams(st, fd.Recv, fd.Type, nil)
-	// bind the loop variable
 	if p.Loop != nil {
 		if as, ok := p.Loop.Init.(*ast.AssignStmt); ok && len(as.Lhs) == 1 {
 			if id, ok := as.Lhs[0].(*ast.Ident); ok {
 				st.Vars[c.Info.Defs[id]] = tVar(nil, "n")
 			}
 		}
+	}
+	ops := c.opcodes()
+	opNames := sortedKeys(ops.ByName)
+	// offsetsOf: which in[n+k] an expression mentions
+	offsetsOf := func(e ast.Expr) map[int64]bool {
+		out := map[int64]bool{}
+		ast.Inspect(e, func(n ast.Node) bool {
+			if ix, ok := n.(*ast.IndexExpr); ok {
+				if id, ok := unparen(ix.X).(*ast.Ident); ok && id.Name == "in" {
+					t := in.eval(st.Clone(), ix)
+					if t.Op == "var" && strings.HasPrefix(t.Name, "I") {
+						var k int64
+						fmt.Sscanf(t.Name, "I%d", &k)
+						out[k] = true
+					}
+				}
+			}
+			return true
+		})
+		return out
 	}
 	for _, cc := range sw.Body.List {
 		cl := cc.(*ast.CaseClause)
@@ -161,152 +206,178 @@ func (c *Ctx) extractPeephole(fd *ast.FuncDecl, sw *ast.SwitchStmt) (*peephole, 
 			p.Problems = append(p.Problems, "case with several conditions at "+c.Pos(cl))
 			continue
 		}
-		rw := &rewrite{Clause: cl}
+		proto := &rewrite{Clause: cl}
 		byOff := map[int64][]string{}
-		var conj []ast.Expr
-		var split func(e ast.Expr)
-		split = func(e ast.Expr) {
-			if be, ok := unparen(e).(*ast.BinaryExpr); ok && be.Op == token.LAND {
-				split(be.X)
-				split(be.Y)
-				return
-			}
-			conj = append(conj, unparen(e))
-		}
-		split(cl.List[0])
-		bad := false
-		codeTest := func(e ast.Expr) (int64, string, bool) {
-			be, ok := unparen(e).(*ast.BinaryExpr)
-			if !ok || be.Op != token.EQL {
-				return 0, "", false
-			}
-			l := in.eval(st.Clone(), be.X)
-			rt := in.eval(st.Clone(), be.Y)
-			if l.Op == "field" && l.Name == "Code" && l.Args[0].Op == "var" && strings.HasPrefix(l.Args[0].Name, "I") && rt.Op == "const" {
-				var off int64
-				fmt.Sscanf(l.Args[0].Name, "I%d", &off)
-				return off, rt.Name, true
-			}
-			return 0, "", false
-		}
-		for _, e := range conj {
-			be, ok := e.(*ast.BinaryExpr)
-			if !ok {
-				bad = true
-				continue
-			}
-			if be.Op == token.LOR {
-				// (in[n+k].Code == codeX || in[n+k].Code == codeY): alternatives at one offset
-				var alts []ast.Expr
-				var flat func(x ast.Expr)
-				flat = func(x ast.Expr) {
-					if b2, ok := unparen(x).(*ast.BinaryExpr); ok && b2.Op == token.LOR {
-						flat(b2.X)
-						flat(b2.Y)
-						return
+		var residual []ast.Expr // conjuncts over operands (side conditions), judged per window
+		bad := ""
+		for _, e := range conjuncts(cl.List[0]) {
+			e = unparen(e)
+			offs := offsetsOf(e)
+			// the bound check n < len(in)-k
+			if be, ok := e.(*ast.BinaryExpr); ok && be.Op == token.LSS && len(offs) == 0 {
+				l := in.eval(st.Clone(), be.X)
+				if l.Op == "var" && l.Name == "n" {
+					lf := linOf(in.eval(st.Clone(), be.Y))
+					if len(lf.Coef) == 1 {
+						proto.HasBound = true
+						proto.Bound = -lf.K
+						continue
 					}
-					alts = append(alts, x)
 				}
-				flat(be)
-				off0 := int64(-1)
-				for _, a := range alts {
-					off, name, ok := codeTest(a)
-					if !ok || (off0 >= 0 && off != off0) {
-						bad = true
+			}
+			if len(offs) == 1 && !mentionsOperand(e) {
+				// a predicate over one instruction's opcode: enumerate the opcodes it accepts
+				var k int64
+				for kk := range offs {
+					k = kk
+				}
+				var alts []string
+				decided := true
+				for _, name := range opNames {
+					bound[k] = withCode(k, name)
+					v := in.eval(st.Clone(), e)
+					delete(bound, k)
+					if v.Op != "const" || (v.Name != "true" && v.Name != "false") {
+						decided = false
 						break
 					}
-					off0 = off
-					byOff[off] = append(byOff[off], name)
+					if v.Name == "true" {
+						alts = append(alts, name)
+					}
 				}
+				if !decided || len(alts) == 0 || len(alts) > 8 {
+					bad = "cannot enumerate the opcodes accepted by `" + c.Src(e) + "`"
+					break
+				}
+				if prev, ok := byOff[k]; ok {
+					// intersect
+					var both []string
+					for _, a := range alts {
+						for _, b := range prev {
+							if a == b {
+								both = append(both, a)
+							}
+						}
+					}
+					alts = both
+				}
+				byOff[k] = alts
 				continue
 			}
-			l := in.eval(st.Clone(), be.X)
-			rt := in.eval(st.Clone(), be.Y)
-			switch {
-			case be.Op == token.EQL && l.Op == "field" && l.Name == "Code" && l.Args[0].Op == "var" && strings.HasPrefix(l.Args[0].Name, "I") && rt.Op == "const":
-				var off int64
-				fmt.Sscanf(l.Args[0].Name, "I%d", &off)
-				byOff[off] = append(byOff[off], rt.Name)
-			case be.Op == token.LSS && l.Op == "var" && l.Name == "n":
-				// n < len(in) - k
-				lf := linOf(rt)
-				rw.HasBound = true
-				rw.Bound = -lf.K
-				if len(lf.Coef) != 1 {
-					bad = true
-				}
-			case be.Op == token.EQL && l.Op == "field" && rt.Op == "field":
-				rw.SideEq = append(rw.SideEq, [2]*T{l, rt})
-				rw.Side = append(rw.Side, l.String()+" == "+rt.String())
-			case be.Op == token.EQL && l.Op == "field" && rt.Op == "int" && rt.K == 0:
-				rw.SideZero = append(rw.SideZero, l)
-				rw.Side = append(rw.Side, l.String()+" == 0")
-			default:
-				bad = true
-			}
+			residual = append(residual, e)
 		}
-		if bad {
-			p.Problems = append(p.Problems, "unrecognised rewrite condition at "+c.Pos(cl)+": "+c.Src(cl.List[0]))
+		if bad != "" {
+			p.Problems = append(p.Problems, "unrecognised rewrite condition at "+c.Pos(cl)+": "+bad)
 			continue
 		}
 		windows := [][]string{{}}
+		okWin := len(byOff) > 0
 		for i := int64(0); i < int64(len(byOff)); i++ {
-			ops, ok := byOff[i]
+			alts, ok := byOff[i]
 			if !ok {
-				bad = true
+				okWin = false
 				break
 			}
 			var next [][]string
 			for _, w := range windows {
-				for _, op := range ops {
+				for _, op := range alts {
 					next = append(next, append(append([]string{}, w...), op))
 				}
 			}
 			windows = next
 		}
-		if bad || len(byOff) == 0 {
+		if !okWin {
 			p.Problems = append(p.Problems, "window offsets are not contiguous from 0 at "+c.Pos(cl))
 			continue
 		}
-		rw.Window = windows[0]
-		// body: out = append(out, <lit>) ; n += k
-		s2 := st.Clone()
-		res := in.execStmts(cl.Body, []*State{s2})
-		if len(res) != 1 {
-			p.Problems = append(p.Problems, "rewrite body forks at "+c.Pos(cl))
-			continue
-		}
-		for _, stm := range cl.Body {
-			ast.Inspect(stm, func(n ast.Node) bool {
-				if call, ok := n.(*ast.CallExpr); ok && c.CalleeName(call) == "builtin.append" && len(call.Args) == 2 {
-					if _, isLit := unparen(call.Args[1]).(*ast.CompositeLit); isLit {
-						rw.Lit = in.eval(st.Clone(), call.Args[1])
-						rw.LitNode = call.Args[1]
-					}
-				}
-				return true
-			})
-		}
-		if rw.Lit == nil {
-			p.Problems = append(p.Problems, "no instruction literal appended at "+c.Pos(cl))
-			continue
-		}
-		if cd := litField(rw.Lit, "Code"); cd != nil && cd.Op == "const" {
-			rw.Produces = cd.Name
-		}
-		// n afterwards
-		for o, v := range res[0].Vars {
-			if o != nil && o.Name() == "n" {
-				lf := linOf(v)
-				rw.Skip = lf.K
+		for _, w := range windows {
+			rw := *proto
+			rw.Window = w
+			for k, code := range w {
+				bound[int64(k)] = withCode(int64(k), code)
 			}
-		}
-		p.Rewrites = append(p.Rewrites, rw)
-		for _, w := range windows[1:] {
-			alt := *rw
-			alt.Window = w
-			p.Rewrites = append(p.Rewrites, &alt)
+			// side conditions
+			okSide := true
+			for _, e := range residual {
+				be, isB := e.(*ast.BinaryExpr)
+				if !isB || be.Op != token.EQL {
+					okSide = false
+					break
+				}
+				l := in.eval(st.Clone(), be.X)
+				rt := in.eval(st.Clone(), be.Y)
+				switch {
+				case l.Op == "field" && rt.Op == "field":
+					rw.SideEq = append(rw.SideEq, [2]*T{l, rt})
+					rw.Side = append(rw.Side, l.String()+" == "+rt.String())
+				case l.Op == "field" && rt.Op == "int" && rt.K == 0:
+					rw.SideZero = append(rw.SideZero, l)
+					rw.Side = append(rw.Side, l.String()+" == 0")
+				default:
+					okSide = false
+				}
+			}
+			if !okSide {
+				p.Problems = append(p.Problems, "unrecognised side condition at "+c.Pos(cl)+": "+c.Src(cl.List[0]))
+				for k := range w {
+					delete(bound, int64(k))
+				}
+				continue
+			}
+			res := in.execStmts(cl.Body, []*State{st.Clone()})
+			if len(res) != 1 {
+				p.Problems = append(p.Problems, "rewrite body forks at "+c.Pos(cl))
+				for k := range w {
+					delete(bound, int64(k))
+				}
+				continue
+			}
+			// the appended instruction: the last append onto the output whose argument is an instruction value
+			for _, stm := range cl.Body {
+				ast.Inspect(stm, func(n ast.Node) bool {
+					if call, ok := n.(*ast.CallExpr); ok && c.CalleeName(call) == "builtin.append" && len(call.Args) == 2 && isNamed(c.TypeOf(call.Args[1]), "instruction") {
+						v := in.eval(st.Clone(), call.Args[1])
+						if v.Op == "lit" {
+							rw.Lit = v
+							rw.LitNode = call.Args[1]
+						}
+					}
+					return true
+				})
+			}
+			for o, v := range res[0].Vars {
+				if o != nil && o.Name() == "n" {
+					rw.Skip = linOf(v).K
+				}
+			}
+			for k := range w {
+				delete(bound, int64(k))
+			}
+			if rw.Lit == nil {
+				p.Problems = append(p.Problems, "no instruction literal appended at "+c.Pos(cl))
+				continue
+			}
+			if cd := litField(rw.Lit, "Code"); cd != nil && cd.Op == "const" {
+				rw.Produces = cd.Name
+			}
+			cp := rw
+			p.Rewrites = append(p.Rewrites, &cp)
 		}
 	}
 	return p, nil
+}
+
+// mentionsOperand: the expression reads an operand field (.A/.B/.C) of an instruction.
+func mentionsOperand(e ast.Expr) bool {
+	found := false
+	ast.Inspect(e, func(n ast.Node) bool {
+		if sel, ok := n.(*ast.SelectorExpr); ok {
+			switch sel.Sel.Name {
+			case "A", "B", "C":
+				found = true
+			}
+		}
+		return true
+	})
+	return found
 }
